@@ -311,7 +311,11 @@ pub fn pygen(out_path: &str, tier: Tier, seed: u64) -> i32 {
                 }
             });
         }
-        let kinds: &[&str] = if target == "validity" { &["false", "raise", "none", "str", "int", "list"] } else { &["false", "raise", "none", "str"] };
+        let kinds: &[&str] = if target == "validity" {
+            &["false", "raise", "raise-interrupted", "raise-keyboard", "raise-stopiteration", "raise-memory", "none", "str", "int", "list"]
+        } else {
+            &["false", "raise", "raise-keyboard", "raise-generatorexit", "raise-interrupted", "none", "str"]
+        };
         let timeout = if sc.params.kind == PKind::Prm { 2.0 } else { 1.5 };
         for kind in kinds {
             let fault = json!({"target":target,"when":when,"kind":kind,"region":region_json,"k":k});
@@ -621,7 +625,7 @@ pub fn pyverify(prop: &str, scen_path: &str, res_path: &str, tier: Tier, seed: u
         for w in crate::spec::ALL_WRAPS {
             ctx.require(&format!("fault_fired_in_variant[{}]", w.name()));
         }
-        for k in ["fault_groups", "fault_kind[raise]", "fault_kind[none]", "fault_kind[str]", "variant_runs_where_the_fault_fired", "variant_runs_compared_with_reference", "fault_target[validity][region]", "fault_target[validity][kth]", "fault_target[goal][region]"] {
+        for k in ["fault_groups", "fault_kind[raise-interrupted]", "fault_kind[raise-keyboard]", "fault_kind[raise]", "fault_kind[none]", "fault_kind[str]", "variant_runs_where_the_fault_fired", "variant_runs_compared_with_reference", "fault_target[validity][region]", "fault_target[validity][kth]", "fault_target[goal][region]"] {
             ctx.require(k);
         }
         ctx.finish(
